@@ -141,6 +141,7 @@ def rule_lexical(body, applied):
         ('R18', r'\.as_bytes\(\)\.into\(\)', '.as_bytes().to_vec()'),
         ('R21', r'\.chunks_exact\(', '.chunks_exact_v('),
         ('R22', r'\bProjectivePoint::GENERATOR\b', 'ProjectivePoint::generator_v()'),
+        ('R24', r'\.splice\(', '.splice_v('),
         ('D2', r'\buse\s+[A-Za-z_][A-Za-z0-9_:{}, *]*;', ''),
         ('R3', r'\|_\|', '|_v0|'),
         ('R3', r'\.map_err\((BSVErrors::[A-Za-z0-9_]+)\)', r'.map_err(|e_v0| \1(e_v0))'),
@@ -183,11 +184,39 @@ def _recv_start(text, dot):
                         break
                 i -= 1
             i -= 1
-        elif c == '&' or c == '*':
+        elif c == '&' or c == '*' or c == '?':
             i -= 1
         else:
             break
     return i + 1
+
+
+def rule_zip_map(body, applied):
+    """R7: `B.iter().zip(A.iter()).map(|(&x1, &x2)| E).collect()` -> index loop up to min(B.len(), A.len()); E copied token-for-token."""
+    k = 0
+    while True:
+        m = re.search(r'\.iter\(\)\s*\.zip\(\s*([A-Za-z_][A-Za-z0-9_.]*)\.iter\(\)\s*\)\s*\.map\(\s*\|\s*\(\s*&\s*([A-Za-z_][A-Za-z0-9_]*)\s*,\s*&\s*([A-Za-z_][A-Za-z0-9_]*)\s*\)\s*\|', body)
+        if not m:
+            break
+        other, v1, v2 = m.group(1), m.group(2), m.group(3)
+        popen = m.start() + body[m.start():m.end()].index('.map') + len('.map')
+        pclose = _find_matching(body, popen)
+        expr = body[m.end():pclose].strip()
+        rest = body[pclose + 1:]
+        cm = re.match(r'\s*\.collect(::<[^()]*>)?\(\)', rest)
+        if not cm:
+            raise GenError('R7: zip/map chain without .collect()')
+        end = pclose + 1 + cm.end()
+        rs = _recv_start(body, m.start())
+        recv = body[rs:m.start()].strip()
+        loop = ('{ let mut acc_z%d = Vec::new(); let mut idx_z%d: usize = 0;\n'
+                'while idx_z%d < %s.len() && idx_z%d < %s.len() {\n'
+                'let %s = %s[idx_z%d]; let %s = %s[idx_z%d];\n'
+                'let item_z%d = %s;\nacc_z%d.push(item_z%d);\nidx_z%d += 1;\n}\nacc_z%d }') % (k, k, k, recv, k, other, v1, recv, k, v2, other, k, k, expr, k, k, k, k)
+        body = body[:rs] + loop + body[end:]
+        applied.append({'rule': 'R7', 'receivers': [recv, other], 'closure_body_sha256': hashlib.sha256(norm_ws(expr).encode()).hexdigest()[:16]})
+        k += 1
+    return body
 
 
 def rule_iter_chains(body, applied):
@@ -217,12 +246,18 @@ def rule_iter_chains(body, applied):
         k = counter
         counter += 1
         add = 'acc_v%d.extend_v(item_v%d);' % (k, k) if kind == 'flat_map' else 'acc_v%d.push(item_v%d);' % (k, k)
-        loop = ('{ let mut acc_v%d = Vec::new(); let mut idx_v%d: usize = 0;\n'
+        pre_bind = ''
+        if '(' in recv or '?' in recv:
+            # not a place expression: evaluate it once
+            pre_bind = 'let recv_v%d = %s; ' % (k, recv)
+            recv = 'recv_v%d' % k
+        loop = ('{ ' + pre_bind + 'let mut acc_v%d = Vec::new(); let mut idx_v%d: usize = 0;\n'
                 'while idx_v%d < %s.len() {\n'
                 'let %s = &%s[idx_v%d];\n'
                 'let item_v%d = %s;\n'
                 '%s\nidx_v%d += 1;\n}\n'
                 'acc_v%d }') % (k, k, k, recv, var, recv, k, k, closure_body, add, k, k)
+        loop = loop.replace('{ { ', '{ ', 1) if loop.startswith('{ { ') else loop
         body = body[:rs] + loop + body[end:]
         applied.append({'rule': 'R4' if kind == 'flat_map' else 'R5', 'receiver': recv, 'closure_param': var,
                         'closure_body_sha256': hashlib.sha256(norm_ws(closure_body).encode()).hexdigest()[:16]})
@@ -831,6 +866,7 @@ def emit_fn(contract, verified, info):
     applied = []
     body = rule_lexical(body, applied)
     body = rule_iter_mut_for_each(body, applied)
+    body = rule_zip_map(body, applied)
     body = rule_iter_chains(body, applied)
     body = rule_defunctionalise(body, applied)
     body = rule_and_then_chain(body, applied)
